@@ -304,16 +304,22 @@ def run_crash(spec, res, sim):
         return
     total = {shape: int(out.split('LINES')[1].split()[0])}
     res.extra['line_events_per_update'] = total[shape]
+    where = out.split('WHERE')[1].split() if 'WHERE' in out else []
     mine = [(shape, k) for k in range(1, total[shape] + 1) if k % 2 == half]
     if spec['tier'] != 'thorough':
-        # stratified sample: spread over the whole path
-        step = max(1, len(mine) // 12)
-        mine = mine[rng.randrange(step) :: step]
+        # every line event close to the file-system step (stage -> store -> catalogue) of each value,
+        # plus a stratified sample spread over the rest of the path
+        moves = [i + 1 for i, w in enumerate(where) if w.startswith('move:')]
+        critical = sorted({k for m in moves for k in range(m - 7, m + 8) if 1 <= k <= total[shape] and k % 2 == half})
+        step = max(1, len(mine) // 5)
+        mine = [(shape, k) for k in critical] + mine[rng.randrange(step) :: step]
+        mine = sorted(set(mine))
+        res.count('critical_window_points', len(critical))
     else:
         res.extra['exhaustive_crash_points'] = True
     n = 0
     for shape, k in mine:
-        if spec['tier'] != 'thorough' and res.elapsed() > spec['budget'] and n >= 5:
+        if spec['tier'] != 'thorough' and res.elapsed() > spec['budget'] * 2.2 and n >= 5:
             break
         root = base + f'-s{shape}k{k}'
         shutil.copytree(base, root)
